@@ -39,6 +39,7 @@ class Recorder(object):
 
     def reset(self, faults=None):
         self.faults = dict(faults or {})
+        self.seq_faults = {}   # seq -> faults of that request only (concurrent requests with different fault plans)
         self.trace = {}       # seq -> [event strings]
         self.calls = {}       # seq -> [(function name, kwargs dict)]
         self.labels = {}
@@ -125,7 +126,7 @@ class Recorder(object):
     def layer(self, name, nxt, kwargs, provides):
         """Body of every harness middleware function."""
         self.record(name, kwargs)
-        spec = self.faults.get(name) or {'beh': 'pass'}
+        spec = self.seq_faults.get(self.seq, self.faults).get(name) or {'beh': 'pass'}
         beh = spec['beh']
         self.ev('>' + name)
         if beh == 'raise_before':
@@ -161,7 +162,7 @@ class Recorder(object):
     def leaf(self, name, kwargs, default_value):
         """Body of every harness endpoint / render function."""
         self.record(name, kwargs)
-        spec = self.faults.get(name) or {'beh': 'pass'}
+        spec = self.seq_faults.get(self.seq, self.faults).get(name) or {'beh': 'pass'}
         beh = spec['beh']
         self.ev('>' + name)
         if beh in ('raise', 'raise_before'):
@@ -223,14 +224,14 @@ def _hook_factory(ph, spec):
     return f
 
 
-def make_mw_type(key, unique, reorderable, funcs, wsgi=False, base=None, hooks='method', static_name=None):
+def make_mw_type(key, unique, reorderable, funcs, wsgi=False, base=None, hooks='method', static_name=None, cls_name=None):
     """One class object per type key: Middleware equality is type equality.
 
     funcs: {'request'|'endpoint'|'render': {'req':[], 'opt':[], 'kwreq':[], 'kwopt':[], 'provides':[]}}
     base:  another class made here (the new type is a SUBCLASS of it -- still a different type)
     hooks: 'method' (functions on the class) | 'closure' (plain functions set on the instance in __init__)
            | 'static' (staticmethods: every instance hands out the SAME function object; layer name = static_name)"""
-    ck = (key, unique, reorderable, repr(sorted((k, sorted(v.items())) for k, v in funcs.items())), id(base), hooks, static_name)
+    ck = (key, unique, reorderable, repr(sorted((k, sorted(v.items())) for k, v in funcs.items())), id(base), hooks, static_name, cls_name)
     if ck in _TYPE_CACHE:
         return _TYPE_CACHE[ck]
     attrs = {'unique': unique, 'reorderable': reorderable}
@@ -259,7 +260,8 @@ def make_mw_type(key, unique, reorderable, funcs, wsgi=False, base=None, hooks='
         return '<simmw %s>' % self._sim_name
     attrs['__init__'] = __init__
     attrs['__repr__'] = __repr__
-    cls = type(str(key), (base or Middleware,), attrs)
+    # cls_name: the class's __name__ (two DIFFERENT types may well be called the same, in different modules)
+    cls = type(str(cls_name or key), (base or Middleware,), attrs)
     if len(_TYPE_CACHE) > 4000:
         _TYPE_CACHE.clear()
     _TYPE_CACHE[ck] = cls
